@@ -187,6 +187,11 @@ def gen_response(rng, allow=None, position='any'):
             framing = 'head+te'
     elif framing == 'head+cl':
         fields.append(('Content-Length', str(rng.choice([0, 10, 4000]))))
+    linger = False
+    if then == 'keep' and framing in ('length', 'chunked', 'chunked-case', 'length0', 'x-gzip') and rng.random() < 0.12:
+        # the server announces that it will close the connection but lingers: the client must not use it again
+        fields.append(('Connection', rng.choice(['close', 'Close'])))
+        linger = True
     head = format_head(status, STATUS_TEXT[status], fields, style)
     interim = b''
     if framing == 'interim':
@@ -204,7 +209,7 @@ def gen_response(rng, allow=None, position='any'):
     return {
         'wire': wire, 'then': then, 'method': method, 'head_len': len(interim) + len(head),
         'surplus': len(surplus), 'interim_len': len(interim),
-        'classes': {'framing': framing, 'style': style, 'coding': coding, 'body': bname,
+        'classes': {'framing': framing, 'style': style, 'coding': coding, 'body': bname, 'conn_close_linger': linger,
                     'chunk_style': chunk_style and {k: (bool(v) if k != 'trailer' else len(v))
                                                     for k, v in chunk_style.items()}},
         'expect': {'status': status, 'body': expect_body},
